@@ -103,6 +103,8 @@ class TWorld(W.World):
     def _after(self, name, inp, exc):
         super()._after(name, inp, exc)
         self.trace[name][-1]["g"] = self.steps
+        for i, msg in self.ep[name].reacted:       # send() calls issued from inside an event handler in this step
+            self.sendlog.append((self.steps, name, i, msg))
 
     def apply(self, op):
         if op and op[0] == "send" and op[1] in self.ep and op[2] < len(self.ep[op[1]].channels):
